@@ -7,10 +7,11 @@ import Cvss.Lemmas.Invariance
 namespace Cvss.Props.C15
 open Cvss Cvss.Model Cvss.Lemmas.Construct Cvss.Lemmas.Invariance
 
-/-- mandatory ++ temporal ++ environmental is exactly the metric table, in table order -/
+/-- mandatory ++ temporal ++ environmental lists every metric of the table exactly once (in whatever
+    order the table happens to have: a permutation, not an equality) -/
 theorem groups_partition :
-    Gen.V2.mandatory ++ Gen.V2.temporal ++ Gen.V2.environmental = keys Gen.V2.abbrs ∧
-    Gen.V3.mandatory ++ Gen.V3.temporal ++ Gen.V3.environmental = keys Gen.V3.abbrs := by
+    (Gen.V2.mandatory ++ Gen.V2.temporal ++ Gen.V2.environmental).Perm (keys Gen.V2.abbrs) ∧
+    (Gen.V3.mandatory ++ Gen.V3.temporal ++ Gen.V3.environmental).Perm (keys Gen.V3.abbrs) := by
   decide +kernel
 
 /-- v2: both sub-vectors list every metric of their group once, in specification order, with the
@@ -42,27 +43,29 @@ theorem v2_reassembled (s : Str) (o : V2.Obj) (h : V2.construct s = .ok o) :
             '/' :: o.temporalVector ++ '/' :: o.environmentalVector) = .ok o' ∧ o'.scores = o.scores := by
   obtain ⟨hp0, -, hb, ht, hen⟩ := v2_construct_spec h
   obtain ⟨-, -, hl, hn, hm⟩ := C04.v2_parse_ok_fields _ _ hp0
+  have hperm : (Gen.V2.mandatory ++ Gen.V2.temporal ++ Gen.V2.environmental).Perm V2.tables.abbrs :=
+    groups_partition.1
   have hleg : ∀ k ∈ V2.tables.abbrs, LegalPair V2.tables (k, assignment V2.ND o.metrics k) :=
     fun k hk => assignment_legalPair C04.pinned2 nd_ok.1 hl hm hk
   obtain ⟨hne', hl', hs', hn', hm'⟩ :=
-    tabulate_facts C04.pinned2 (assignment V2.ND o.metrics) (by decide) (by decide) hleg
+    tabulate_facts_perm C04.pinned2 (assignment V2.ND o.metrics) hperm (by decide) (by decide) hleg
   have hparse := C04.v2_parse_render _ hne' hl' hs' hn' hm'
   rw [map_fieldOf_tabulate] at hparse
   have hstr : join '/' (Gen.V2.mandatory.map (fun k => fieldOf (k, assignment V2.ND o.metrics k))) ++
         '/' :: o.temporalVector ++ '/' :: o.environmentalVector =
-      join '/' (V2.tables.abbrs.map (fun k => fieldOf (k, assignment V2.ND o.metrics k))) := by
+      join '/' ((Gen.V2.mandatory ++ Gen.V2.temporal ++ Gen.V2.environmental).map
+        (fun k => fieldOf (k, assignment V2.ND o.metrics k))) := by
     rw [(v2_subvectors o).1, (v2_subvectors o).2,
       join3 _ _ _ _ (by simp [Gen.V2.mandatory]) (by simp [Gen.V2.temporal])
         (by simp [Gen.V2.environmental]),
-      ← List.map_append, ← List.map_append, groups_partition.1]
-    rfl
+      ← List.map_append, ← List.map_append]
   rw [hstr]
   obtain ⟨o', ho', hmet⟩ := v2_construct_of_parse hparse
   refine ⟨o', ho', ?_⟩
   obtain ⟨-, -, hb', ht', hen'⟩ := v2_construct_spec ho'
   have hass : assignment V2.ND o'.metrics = assignment V2.ND o.metrics := by
     rw [hmet]
-    refine assignment_tabulate V2.ND _ _ (fun k hk => ?_)
+    refine assignment_tabulate_perm V2.ND _ hperm (fun k hk => ?_)
     have : lookup k o.metrics = none :=
       (lookup_eq_none_iff _ _).2 (fun hmem => hk (keys_subset_of_legal hl k hmem))
     simp [assignment, this]
@@ -75,10 +78,12 @@ theorem v3_reassembled (s : Str) (o : V3.Obj) (h : V3.construct s = .ok o) :
             '/' :: o.temporalVector ++ '/' :: o.environmentalVector) = .ok o' ∧ o'.scores = o.scores := by
   obtain ⟨hp0, -, hb, ht, hen, -⟩ := v3_construct_spec h
   obtain ⟨⟨p, hpi, -⟩, -, hl, hn, hm⟩ := C04.v3_parse_ok_fields _ _ _ hp0
+  have hperm : (Gen.V3.mandatory ++ Gen.V3.temporal ++ Gen.V3.environmental).Perm V3.tables.abbrs :=
+    groups_partition.2
   have hleg : ∀ k ∈ V3.tables.abbrs, LegalPair V3.tables (k, shownV3 (assignment V3.X o.orig) k) :=
     fun k hk => shownV3_legalPair hl hm hk
   obtain ⟨hne', hl', hs', hn', hm'⟩ :=
-    tabulate_facts C04.pinned3 (shownV3 (assignment V3.X o.orig)) (by decide) (by decide) hleg
+    tabulate_facts_perm C04.pinned3 (shownV3 (assignment V3.X o.orig)) hperm (by decide) (by decide) hleg
   have hparse := C04.v3_parse_render o.minor p hpi _ hne' hl' hs' hn' hm'
   rw [map_fieldOf_tabulate, v3_prefix_eq hpi] at hparse
   have hmand : Gen.V3.mandatory.map (fun k => fieldOf (k, assignment V3.X o.orig k)) =
@@ -90,20 +95,20 @@ theorem v3_reassembled (s : Str) (o : V3.Obj) (h : V3.construct s = .ok o) :
         join '/' (Gen.V3.mandatory.map (fun k => fieldOf (k, assignment V3.X o.orig k))) ++
         '/' :: o.temporalVector ++ '/' :: o.environmentalVector =
       V3.versionPrefix o.minor ++
-        join '/' (V3.tables.abbrs.map (fun k => fieldOf (k, shownV3 (assignment V3.X o.orig) k))) := by
+        join '/' ((Gen.V3.mandatory ++ Gen.V3.temporal ++ Gen.V3.environmental).map
+          (fun k => fieldOf (k, shownV3 (assignment V3.X o.orig) k))) := by
     rw [(Lemmas.Invariance.v3_subvectors h).1, (Lemmas.Invariance.v3_subvectors h).2, hmand, List.append_assoc,
       List.append_assoc, ← List.append_assoc (join _ _),
       join3 _ _ _ _ (by simp [Gen.V3.mandatory]) (by simp [Gen.V3.temporal])
         (by simp [Gen.V3.environmental]),
-      ← List.map_append, ← List.map_append, groups_partition.2]
-    rfl
+      ← List.map_append, ← List.map_append]
   rw [hstr]
   obtain ⟨o', ho', hmin, hor⟩ := v3_construct_of_parse hparse
   refine ⟨o', ho', ?_⟩
   obtain ⟨-, -, hb', ht', hen', -⟩ := v3_construct_spec ho'
   have hass : assignment V3.X o'.orig = shownV3 (assignment V3.X o.orig) := by
     rw [hor]
-    refine assignment_tabulate V3.X _ _ (fun k hk => ?_)
+    refine assignment_tabulate_perm V3.X _ hperm (fun k hk => ?_)
     have : lookup k o.orig = none :=
       (lookup_eq_none_iff _ _).2 (fun hmem => hk (keys_subset_of_legal hl k hmem))
     rw [shownV3_plain _ (fun hmod => hk (modified_in_table k hmod))]
